@@ -60,7 +60,9 @@ impl Scenario for DmaBatches {
         }
         let n_transfers = rng.range(1, if thorough { 6 } else { 3 });
         for t in 0..n_transfers {
-            let page = if t == 0 { (index % 256) as i64 } else { rng.below(256) as i64 };
+            // every page in turn for the first transfer; later ones drawn, with the I/O page (whose contents move with time)
+            // and the OAM page itself over-represented
+            let page = if t == 0 { (index % 256) as i64 } else if rng.chance(1, 4) { rng.pick(&[0xffi64, 0xff, 0xfe, 0xe0]) } else { rng.below(256) as i64 };
             case.push("start", &[page]);
             // events while the transfer is in flight
             let mut elapsed = 0u64;
